@@ -86,19 +86,30 @@ theorem opts_setCur (st : St) (s : Sink) : (st.setCur s).opts = st.opts := by
 /-- a write through `tok` or `tokSp` appends: identifiers/shapes of the new token only -/
 structure Wrote (st st' : St) (ids : List String) (shs : List Shape) : Prop where
   opts : st'.opts = st.opts
-  ids : idents st'.cur.items = idents st.cur.items ++ ids
-  shs : shapes st'.cur.items = shapes st.cur.items ++ shs
+  /-- the current output was extended (nothing written earlier is touched) by items with these projections -/
+  ext : ∃ new, st'.cur.items = st.cur.items ++ new ∧ idents new = ids ∧ shapes new = shs
   /-- the output being written to does not change, and the other output is untouched -/
   ul : st'.usingLow = st.usingLow
   other : (if st.usingLow then st'.normal = st.normal else st'.low = st.low)
   stacks : st'.stacks = st.stacks
   warns : st'.warnings = st.warnings
 
-theorem Wrote.refl (st : St) : Wrote st st [] [] := ⟨rfl, by simp, by simp, rfl, by split <;> rfl, rfl, rfl⟩
+theorem Wrote.ids {st st' : St} {ids shs} (h : Wrote st st' ids shs) :
+    idents st'.cur.items = idents st.cur.items ++ ids := by
+  obtain ⟨new, e, hi, _⟩ := h.ext; rw [e, idents_append, hi]
+
+theorem Wrote.shs {st st' : St} {ids shs} (h : Wrote st st' ids shs) :
+    shapes st'.cur.items = shapes st.cur.items ++ shs := by
+  obtain ⟨new, e, _, hs⟩ := h.ext; rw [e, shapes_append, hs]
+
+theorem Wrote.refl (st : St) : Wrote st st [] [] := ⟨rfl, ⟨[], by simp, rfl, rfl⟩, rfl, by split <;> rfl, rfl, rfl⟩
 
 theorem Wrote.trans {a b c : St} {i1 i2 s1 s2} (h1 : Wrote a b i1 s1) (h2 : Wrote b c i2 s2) :
     Wrote a c (i1 ++ i2) (s1 ++ s2) :=
-  ⟨h2.opts.trans h1.opts, by rw [h2.ids, h1.ids, List.append_assoc], by rw [h2.shs, h1.shs, List.append_assoc],
+  ⟨h2.opts.trans h1.opts, by
+     obtain ⟨n1, e1, hi1, hs1⟩ := h1.ext
+     obtain ⟨n2, e2, hi2, hs2⟩ := h2.ext
+     exact ⟨n1 ++ n2, by rw [e2, e1, List.append_assoc], by rw [idents_append, hi1, hi2], by rw [shapes_append, hs1, hs2]⟩,
    h2.ul.trans h1.ul, by
      have o1 := h1.other; have o2 := h2.other; rw [h1.ul] at o2
      split <;> simp_all, h2.stacks.trans h1.stacks, h2.warns.trans h1.warns⟩
@@ -112,20 +123,22 @@ theorem wrote_tok (st : St) (k : OutK) (pos : Pos) (name : Option String) :
     Wrote st (st.tok k pos name) (identOfK k) (shapeOfK k) := by
   obtain ⟨sepItems, h1, h2, h3⟩ := token_items st.cur k pos name
   obtain ⟨f1, f2, f3, f4⟩ := setCur_facts st (st.cur.token k pos name)
-  refine ⟨opts_setCur _ _, ?_, ?_, f1, f2, f3, f4⟩
-  · simp only [St.tok, cur_setCur, h1, idents_append, h2, List.append_nil]
+  refine ⟨opts_setCur _ _, ⟨sepItems ++ [⟨k, some pos, name⟩], ?_, ?_, ?_⟩, f1, f2, f3, f4⟩
+  · simp only [St.tok, cur_setCur, h1, List.append_assoc]
+  · simp only [idents_append, h2, List.nil_append]
     simp [idents]
-  · simp only [St.tok, cur_setCur, h1, shapes_append, h3, List.append_nil]
+  · simp only [shapes_append, h3, List.nil_append]
     simp [shapes]
 
 theorem wrote_tokSp (st : St) (k : OutK) (pos : Pos) (name : Option String) :
     Wrote st (st.tokSp k pos name) (identOfK k) (shapeOfK k) := by
   obtain ⟨pre, o, h1, hk, h2, h3⟩ := tokenSp_items st.cur k pos name
   obtain ⟨f1, f2, f3, f4⟩ := setCur_facts st (st.cur.tokenSp k pos name)
-  refine ⟨opts_setCur _ _, ?_, ?_, f1, f2, f3, f4⟩
-  · simp only [St.tokSp, cur_setCur, h1, idents_append, h2, List.append_nil]
+  refine ⟨opts_setCur _ _, ⟨pre ++ [o], ?_, ?_, ?_⟩, f1, f2, f3, f4⟩
+  · simp only [St.tokSp, cur_setCur, h1, List.append_assoc]
+  · simp only [idents_append, h2, List.nil_append]
     simp [idents, hk]
-  · simp only [St.tokSp, cur_setCur, h1, shapes_append, h3, List.append_nil]
+  · simp only [shapes_append, h3, List.nil_append]
     simp [shapes, hk]
 
 theorem wrote_flushWs (st : St) (hw : Bool) (pos : Pos) : Wrote st (flushWs st hw pos) [] [] := by
